@@ -33,6 +33,10 @@ type Options struct {
 	Copy bool
 	// MapRange routes range-over-map through simrt.MapKeys (R7).
 	MapRange bool
+	// YieldCall / YieldImport override the yield call (default simrt.Yield from
+	// verif/simrt), e.g. "synyield.Point" from "verif/synyield".
+	YieldCall   string
+	YieldImport string
 	// WrapMain renames func main to verifRealMain and adds a main that runs it
 	// under simrt.Main (whole-binary simulation); os.Exit becomes simrt.Exit so
 	// that the run's tape is saved before the process ends.
@@ -123,6 +127,7 @@ type rewriter struct {
 	edits    []edit
 	siteBase int
 	needRT   bool
+	needYI   bool
 	tmp      int
 }
 
@@ -247,6 +252,10 @@ func (r *rewriter) run() error {
 		// add the simrt import right after the package clause, on the same line
 		r.insert(r.file.Name.End(), `; import simrt "verif/simrt"`, 0)
 	}
+	if r.needYI {
+		name := r.opt.YieldCall[:strings.Index(r.opt.YieldCall, ".")]
+		r.insert(r.file.Name.End(), fmt.Sprintf("; import %s %q", name, r.opt.YieldImport), 1)
+	}
 	return nil
 }
 
@@ -255,8 +264,14 @@ func (r *rewriter) site(p token.Pos) int {
 }
 
 func (r *rewriter) yieldBefore(s ast.Stmt) {
-	r.insert(s.Pos(), fmt.Sprintf("simrt.Yield(%d); ", r.site(s.Pos())), 0)
-	r.needRT = true
+	call := "simrt.Yield"
+	if r.opt.YieldCall != "" {
+		call = r.opt.YieldCall
+		r.needYI = true
+	} else {
+		r.needRT = true
+	}
+	r.insert(s.Pos(), fmt.Sprintf("%s(%d); ", call, r.site(s.Pos())), 0)
 	r.st.Yields++
 }
 
